@@ -112,6 +112,25 @@ check('C12', 'model_checking',
       'TLA+ protocol spec, TLC-enumerated histories replayed into the planner; TLC-judged placeholder order',
       'DESIGN.md 2.9, 5/C12')
 
+check('C08', 'translation_validation',
+      'QuerySpace.tla enumerates predictor-free queries over two integrations (joins of every kind, WHERE shapes '
+      'incl. NOT/OR/const-left, IN/NOT IN and scalar subqueries, set operations, CTEs, nested selects, grouping, '
+      'ordering, LIMIT/OFFSET); each is planned by the real planner; PlanExec.tla runs the plan step by step under the '
+      'documented step meanings, exploring every admissible outcome, on a seeded sample of (thorough: all 441) small '
+      'databases per plan; the last result must be an admissible answer of the original query under SQLSem.tla, '
+      'which is cross-checked against sqlite3 on the same queries before it judges.',
+      'Integer-valued two-column tables with <= 2 rows; step meanings per DESIGN A.4; queries or plans outside the '
+      'semantic fragment are counted, not judged; listed findings are pinned per query text.',
+      'translation validation in TLC: TLA+ reference semantics + plan interpreter, oracle cross-checked with sqlite3',
+      'DESIGN.md 2.6, 5/C08')
+check('C11', 'translation_validation',
+      'QuerySpace.tla (single family) enumerates single-integration query bodies x alias spellings x catalogs; the plan '
+      'must be exactly one fetch step for that integration, and PlanExec/SQLSem evaluate the pushed query on the '
+      'integration and the original on the merged database over small databases: same rows, order and column names.',
+      'Same data model as C08; 17 query bodies x 5 alias spellings x 3-4 catalogs.',
+      'translation validation in TLC of the pushed-down query against the original (TLA+ reference semantics)',
+      'DESIGN.md 2.6, 5/C11')
+
 ALL = ['C%02d' % i for i in range(1, 21)]
 
 
